@@ -69,7 +69,7 @@ Enc ==
 
 \* a panic while typing an in-contract text is never allowed
 Panic == l <= Len(Rec) /\ E.ev = "panic" /\ Fail("the engine panicked") /\ l' = l + 1
-Reset == l <= Len(Rec) /\ E.ev = "reset" /\ l' = l + 1
+Reset == l <= Len(Rec) /\ E.ev \in {"reset", "noise"} /\ l' = l + 1     \* noise: another word composed in the same context
 
 Next == PList \/ FList \/ Enc \/ Panic \/ Reset
 Spec == Init /\ [][Next]_l
